@@ -134,8 +134,8 @@ pub fn boundary_len(r: &mut Rng, max: usize) -> usize {
 }
 
 pub fn some_len(r: &mut Rng, max: usize) -> usize {
-    if !hints().is_empty() && r.chance(1, 2) {
-        if let Some(n) = hint_number(r, max.max(120_000)) {
+    if !hints().is_empty() && r.chance(1, 3) {
+        if let Some(n) = hint_number(r, max.max(30_000)) {
             return n;
         }
     }
